@@ -20,8 +20,8 @@ TEXT = {
     "C03": {
         "engine": "rapid-wire",
         "technique": "model-based stateful testing (rapid): reference model of session rules with a denotation into BESS tables, compared with the harness BESS server's settled snapshot after every accepted request, plus differential packet classification on boundary samples",
-        "level_text": "Histories of establish/modify (create, update, remove of PDR/FAR/QER)/delete/release over up to 6 live sessions and 3 associations run against the real agent and a harness BESS gRPC server with WildcardMatch/ExactMatch/Qos semantics. After every accepted request the snapshot must equal the denotation of the model: every entry attributable to a live rule, value/mask pairs of the eight match fields, port sets by set semantics, gate, FAR id, first application QER, priority order, one FAR entry with action/tunnel fields, two entries per QER in exactly one module, nothing else; boundary packets around every rule are classified by the datapath lookup and by the statement's match predicate. Requests for unknown sessions / without association must be rejected with zero commands.",
-        "level_note": WIRE_NOTE + " Exact-image oracle only inside the supported IPv4 envelope (DESIGN.md section 5). Crash/restart points are covered by the restart unit when present in checks_table.py.",
+        "level_text": "Histories of establish/modify (create, update, remove of PDR/FAR/QER)/delete/release over up to 6 live sessions and 3 associations run against the real agent and a harness BESS gRPC server with WildcardMatch/ExactMatch/Qos semantics. After every accepted request the snapshot must equal the denotation of the model: every entry attributable to a live rule, value/mask pairs of the eight match fields, port sets by set semantics, gate, FAR id, first application QER, priority order, one FAR entry with action/tunnel fields, two entries per QER in exactly one module, nothing else; boundary packets around every rule are classified by the datapath lookup and by the statement's match predicate. Requests for unknown sessions / without association must be rejected with zero commands. Crash points: the real cmd/pfcpiface binary is killed with SIGKILL after the k-th response or with a request in flight and restarted against the same, junk-pre-populated server; the first commands must clear the four lookup modules (never sliceMeter) and the tables must equal the image of the new incarnation's sessions only.",
+        "level_note": WIRE_NOTE + " Exact-image oracle only inside the supported IPv4 envelope (DESIGN.md section 5).",
     },
     "C06": {
         "engine": "rapid-direct",
@@ -65,8 +65,8 @@ TEXT.update({
     "C04": {
         "engine": "rapid-wire",
         "technique": "model-based stateful testing (rapid) against a harness P4Runtime server with specification write semantics; oracle = denotation of the model up to a bijection on agent-chosen identifiers",
-        "level_text": "Histories of establishments (shared gNBs and application filters, F-TEID given or CHOOSE, QER shapes none/[app]/[app,session]), Update FAR (forward<->buffer<->drop, new TEID/peer), Update QER and deletions run on a fresh UP4 agent and switch per case under three slice/TC/QFI-map configurations. After every accepted request the switch state must be the image: exactly the two interfaces entries, one sessions entry per distinct key, terminations per (UE, application) with drop/forward/TEID/QFI/TC following FAR and QER, a bijection between distinct filters and applications entries (ids 1..254, priority ordered as precedence) and between distinct GTP peers and tunnel_peers entries (ids 2..254), counters exclusive, and configured meter cells only for live QERs.",
-        "level_note": WIRE_NOTE + " Envelope: every uplink PDR has a downlink PDR in its session, one FAR for all downlink PDRs of a session, precedence <= 65534. Kill/restart is covered by the restart unit when present in checks_table.py.",
+        "level_text": "Histories of establishments (shared gNBs and application filters, F-TEID given or CHOOSE, QER shapes none/[app]/[app,session]), Update FAR (forward<->buffer<->drop, new TEID/peer), Update QER and deletions run on a fresh UP4 agent and switch per case under three slice/TC/QFI-map configurations. After every accepted request the switch state must be the image: exactly the two interfaces entries, one sessions entry per distinct key, terminations per (UE, application) with drop/forward/TEID/QFI/TC following FAR and QER, a bijection between distinct filters and applications entries (ids 1..254, priority ordered as precedence) and between distinct GTP peers and tunnel_peers entries (ids 2..254), counters exclusive, and configured meter cells only for live QERs. Crash points: the real cmd/pfcpiface binary is killed with SIGKILL (after the k-th response or with a request in flight) and restarted against the same switch holding its leftovers plus injected junk, with clear_state_on_restart on and off; before any request and after each request of the second incarnation the switch must hold exactly the two interfaces entries plus the image of the new sessions.",
+        "level_note": WIRE_NOTE + " Envelope: every uplink PDR has a downlink PDR in its session, one FAR for all downlink PDRs of a session, precedence <= 65534.",
     },
     "C05": {
         "engine": "rapid-wire",
